@@ -417,6 +417,32 @@ def rule_table_routing(ctx):
     C13.rule_R2(R.Retag(ctx, "C13."))
 
 
+def rule_diagnosis(ctx):
+    """R4: the HTTP diagnosis is computed like the HTTP analyzer computes it: get_diagnostic(user agent, user-agent match, signature match)
+    for every reported request, whatever the configuration (without a matcher the two matches are None, the user-agent test still applies)"""
+    P = ctx.program
+    n = 0
+    for b in P.bodies.values():
+        if b.crate not in ("huginn_net", "huginn_net_http") or not b.blocks:
+            continue
+        ags = Q.aggregates(b, "HttpRequestOutput")
+        if not ags:
+            continue
+        S = T.Slicer(b, P)
+        for (i, j, s) in ags:
+            f = dict(zip(s["r"]["fields"], [S.operand(o, i, j) for o in s["r"]["ops"]]))
+            if "diagnosis" not in f:
+                continue
+            n += 1
+            d = T.strip(f["diagnosis"])
+            direct = d[0] == "call" and d[1].endswith("get_diagnostic")
+            ua = direct and any(x[0] == "field" and x[2] == "user_agent" for x in T.walk(d[2][0]))
+            ctx.check(direct and ua, "R4", "diagnosis:%s" % T.short(b.path), "diagnosis = get_diagnostic(user_agent, ..)",
+                      "the request diagnosis is %s instead of get_diagnostic(user_agent, ua match, signature match) in every case: with some configuration (e.g. matching switched off) "
+                      "the unified analyzer reports another diagnosis than the HTTP analyzer (`None` instead of `Anonymous` for a request without User-Agent)" % T.pp(d)[:80], ctx.loc(b, i))
+    ctx.floor("R4", "HttpRequestOutput constructions with a diagnosis", n, 2)
+
+
 def rule_twins(ctx):
     """R1: the IPv4 and IPv6 copies of every per-packet function route sides, roles and lookups identically"""
     from . import _twins as TW
@@ -424,6 +450,7 @@ def rule_twins(ctx):
 
 
 def run(ctx):
+    rule_diagnosis(ctx)
     rule_twins(ctx)
     rule_table_routing(ctx)
     rule_link_order(ctx)
